@@ -53,6 +53,7 @@ func checkC07(c *Ctx) {
 	c07Deliver(c)
 	c07ByVersion(c)
 	c07MustDecrypt(c)
+	hashFed(c, "G-HASH-fed", []string{"gmtls"})
 	if n := completeCopies(c, "G-COPY-complete", "gmtls", func(f *ssa.Function) bool { return f.Name() == "marshal" || f.Name() == "unmarshal" }); n < 10 {
 		c.Undecided("G-COPY-complete", "gmtls", "copies into fresh buffers", fmt.Sprintf("only %d found", n), token.NoPos)
 	}
@@ -245,12 +246,12 @@ func c07Agreement(c *Ctx, dec, enc *ssa.Function) {
 	}
 	c.Check(norm(da) == norm(want), "K-C07-aad", fname(dec), "additional data = seq || type,version || length", "", "the opening side builds "+norm(da), dec.Pos())
 	c.Check(norm(ea) == norm(want), "K-C07-aad", fname(enc), "additional data = seq || type,version || length", "", "the sealing side builds "+norm(ea), enc.Pos())
-	c.Check(strings.Contains(dad, "additionalData") && strings.Contains(ead, "additionalData"), "K-C07-aad", "gmtls.(*halfConn)", "Open and Seal are given the additional data", "", "Open gets "+dad+", Seal gets "+ead, dec.Pos())
+	c.Check(strings.Contains(dad, "additionalData") && strings.Contains(ead, "additionalData"), "K-C07-aad", fname(dec), "Open and Seal are given the additional data", "", "Open gets "+dad+", Seal gets "+ead, dec.Pos())
 	okNonce := func(s string) bool {
 		// explicit nonce from the record, or the sequence number when there is none
 		return strings.Contains(s, "hc.seq") && (strings.Contains(s, "b.data") || strings.Contains(s, "payload") || strings.Contains(s, "slice("))
 	}
-	c.Check(okNonce(dn) && okNonce(en), "K-C07-aad", "gmtls.(*halfConn)", "nonce is the explicit nonce or the sequence number", "", "Open nonce "+dn+", Seal nonce "+en, dec.Pos())
+	c.Check(okNonce(dn) && okNonce(en), "K-C07-aad", fname(dec), "nonce is the explicit nonce or the sequence number", "", "Open nonce "+dn+", Seal nonce "+en, dec.Pos())
 	// MAC inputs: (digestBuf, seq, header, payload, extra)
 	okMac := func(a []string, digest string) bool {
 		return len(a) == 5 && strings.Contains(a[0], digest) && a[1] == "slice(hc.seq,0x0,_)" && a[2] == "slice(b.data,_,0x5)"
@@ -330,6 +331,20 @@ func c07Seq(c *Ctx, dec, enc *ssa.Function) {
 						}
 					}
 				}
+			}
+		})
+		// or the whole array is assigned its zero value at once (hc.seq = [8]byte{})
+		instrsOf(f, func(_ *ssa.BasicBlock, in ssa.Instruction) {
+			st, isSt := in.(*ssa.Store)
+			if !isSt {
+				return
+			}
+			fa, isFA := st.Addr.(*ssa.FieldAddr)
+			if !isFA || fieldName(fa.X.Type(), fa.Field) != "seq" {
+				return
+			}
+			if isZeroAggregate(st.Val) {
+				ok = true
 			}
 		})
 		c.Check(ok, rule, fname(f), "the sequence number restarts at zero under the new keys", "", "changeCipherSpec does not zero every byte of seq", f.Pos())
